@@ -246,6 +246,17 @@ theorem uniq_length (l : List α) : (uniq l).length ≤ l.length := by
   | cons x xs ih =>
     show (insertU x (uniq xs)).length ≤ _
     have := insertU_length x (uniq xs); simp; omega
+/-- `np.unique` leaves a strictly ascending list alone -/
+theorem uniq_of_sorted (l : List α) (h : l.Pairwise (· < ·)) : uniq l = l := by
+  induction l with
+  | nil => simp [uniq]
+  | cons x xs ih =>
+    rw [List.pairwise_cons] at h
+    show insertU x (uniq xs) = _
+    rw [ih h.2]
+    cases xs with
+    | nil => simp [insertU]
+    | cons y ys => simp [insertU, h.1 y (by simp)]
 end lin
 
 /-- list form, for any pair of boolean comparisons that behaves like a total order *on the bins against
